@@ -9,6 +9,11 @@ import time
 
 from hypothesis import HealthCheck, Phase, given, seed as hseed, settings
 from hypothesis.errors import Unsatisfiable
+try:
+    from hypothesis.errors import FlakyFailure as _Flaky1
+except ImportError:      # older hypothesis
+    _Flaky1 = ()
+from hypothesis.errors import Flaky as _Flaky2
 
 from .runner import Result, known_signatures
 
@@ -60,6 +65,17 @@ def search(res: Result, prop: str, strategy, check_fn, n: int, seed: int, *, shr
             for sig, clause, msg in new:
                 res.fail(sig, clause, msg, jcase)
                 suppress.add(sig)
+        except (_Flaky1, _Flaky2) if _Flaky1 else _Flaky2:
+            # the failure was observed but did not recur on Hypothesis' re-execution: the code under test is schedule-dependent
+            # (real threads).  The observed failing case is reported as it was seen.
+            if state['last'] is not None:
+                jcase, new = state['last']
+                for sig, clause, msg in new:
+                    res.fail(sig, clause, '[observed once, not reproduced on immediate re-execution] ' + str(msg), jcase)
+                    suppress.add(sig)
+                res.notes['flaky_failures'] = res.notes.get('flaky_failures', 0) + 1
+            else:
+                raise
         except Unsatisfiable:
             res.notes['unsatisfiable'] = 1
             break
